@@ -128,6 +128,7 @@ type env struct {
 	byHash  map[string]string // hash -> contents (saved versions)
 	trace   []hrec            // family mode: hashes by position
 	states  int
+	maxH    int  // greatest tree height seen
 	light   bool // this step: cheap projection only
 	cur     opt  // options of the open handle
 	dirty   bool // spec: the session had staged writes before this step
@@ -745,6 +746,9 @@ func (e *env) check(s mbt.Step) *failure {
 		return nil
 	}
 	e.states++
+	if h := e.t.Height(); h > e.maxH {
+		e.maxH = h
+	}
 	defer func() { e.dirty, _ = st["dirty"].(bool) }()
 	ver := mbt.Step(st).Int("ver")
 	if int(e.t.Version()) != ver {
@@ -935,10 +939,14 @@ func main() {
 	case "proofs":
 		runProofs(f, &cfg, behs)
 		return
+	case "treecases":
+		runTreeCases(f, &cfg, behs)
+		return
 	}
 	var mu sync.Mutex
 	reported := map[string]int{}
 	var replays, okc, steps, flaky, states int64
+	heights := map[int]int{}
 	var wg sync.WaitGroup
 	nw := runtime.NumCPU()
 	for w := 0; w < nw; w++ {
@@ -956,6 +964,9 @@ func main() {
 					lsteps += int64(len(behs[i]))
 					fl, e := replay(&cfg, v, behs[i], seed, nil)
 					lstates += int64(e.states)
+					mu.Lock()
+					heights[e.maxH]++
+					mu.Unlock()
 					if fl == nil {
 						lok++
 						continue
@@ -993,7 +1004,7 @@ func main() {
 	for i := 0; i < len(behs) && i < 2; i++ {
 		mbt.Sample(brief(behs[i]))
 	}
-	mbt.Summary(map[string]any{"behaviours": len(behs), "replays": replays, "replays_ok": okc, "steps": steps, "flaky": flaky, "states_compared": states})
+	mbt.Summary(map[string]any{"behaviours": len(behs), "replays": replays, "replays_ok": okc, "steps": steps, "flaky": flaky, "states_compared": states, "max_height_histogram": fmt.Sprint(heights)})
 	mbt.Flush()
 }
 
